@@ -6,6 +6,7 @@ import (
 
 	"github.com/libp2p/go-libp2p/p2p/host/eventbus"
 
+	"berty.tech/go-ipfs-log/entry/sorting"
 	"berty.tech/go-ipfs-log/identityprovider"
 	orbitdb "berty.tech/go-orbit-db"
 	"berty.tech/go-orbit-db/accesscontroller"
@@ -31,6 +32,13 @@ func DefaultOrbitDBOptions(g *protocoltypes.Group, options *orbitdb.CreateDBOpti
 		Cache:                   options.Cache,
 		EventBus:                options.EventBus,
 		Logger:                  options.Logger,
+		SortFn:                  options.SortFn,
+	}
+
+	// every member writes with the same log identity (the group signing key),
+	// so concurrent entries can only be ordered deterministically by their hash
+	if options.SortFn == nil {
+		options.SortFn = sorting.SortByEntryHash
 	}
 
 	t := true
